@@ -1,7 +1,7 @@
 META = dict(
     level='exploration',
     rule=('cases = (wrapper, element type, shape/length, index type, index wrapper, index value); wrappers tainted<T[N]> (application layout) and '
-          'tainted_volatile<T[N]> (guest layout, mbox lp32 memory); N = 1..16 for int and char, {1,2,3,8,16} for short/long/long long/int*/double, long arrays char[129/200/256/300/32769/40000] and long[200] (lengths a bounds check done in the width of an 8- or 16-bit index would let through; abort and address only); shapes '
+          'tainted_volatile<T[N]> (guest layout, mbox lp32 memory); N = 1..16 for int and char, {1,2,3,8,16} for short/long/long long/int*/double and (also under a build with 64-bit guest pointers) unsigned short/unsigned/unsigned long/unsigned long long/int*, long arrays char[129/200/256/300/32769/40000] and long[200] (lengths a bounds check done in the width of an 8- or 16-bit index would let through; abort and address only); shapes '
           '2x3 and 3x2; 10 index types; every 8/16-bit index value, boundary + aliasing values (2^8+i, 2^16+i, 2^31+i, 2^32+i, 2^33+i, 2^63+i, negatives) '
           'for 32/64-bit (thorough: every index in [-300, 8*len+300] and 2^k+i, -2^k+i, 2^k-1-i for every k in 3..64); plain, tainted and tainted_volatile indices. Oracle: abort iff idx<0 or idx>=len, else element address = start + idx*elem_size '
           'of that layout and a store through it changes only that element (canaries). non-trivial = out-of-range index. Plus a build-configuration partition on the bundled noop backend: 7 ways a failed check is reported (abort(), -fno-exceptions, RLBOX_USE_EXCEPTIONS with and without compiler exceptions, custom abort handler with and without, -O2) x 7 index types x 19 values x {application, sandbox memory} x {plain, tainted index} x {read, write}, each case in a forked child that must not return from an out-of-range indexing expression.'),
@@ -11,9 +11,12 @@ META = dict(
 
 def run(ctx):
     specs = [('c17_' + k.lower(), 'c17.cpp', dict(opt='-O1', defs=['C17_' + k])) for k in 'ABCDE']
+    # unsigned element types and pointers, 16-bit and pointer-wide (64-bit) guest pointers
+    specs.append(('c17_f', 'c17.cpp', dict(opt='-O1', defs=['C17_F'])))
+    specs.append(('c17_f_p64', 'c17.cpp', dict(opt='-O1', defs=['C17_F', 'C17_PTR=uint64_t'])))
     bins = ctx.build_many(specs)
-    for k in 'ABCDE':
-        ctx.run(bins['c17_' + k.lower()], ['--thorough'] if ctx.thorough else [])
+    for k in ['a', 'b', 'c', 'd', 'e', 'f', 'f_p64']:
+        ctx.run(bins['c17_' + k], ['--thorough'] if ctx.thorough else [])
     # the ways a failed check can be reported: in every one of them an out-of-range index must not return
     cfgs = [('default', [], []), ('noexc', [], ['-fno-exceptions']), ('useexc', ['RLBOX_USE_EXCEPTIONS'], []),
             ('useexc_noexc', ['RLBOX_USE_EXCEPTIONS'], ['-fno-exceptions']), ('custom', ['C17CFG_CUSTOM'], []),
